@@ -70,6 +70,27 @@ func sameFloat(a float64, b float64) bool { return a == b || (a != a && b != b) 
 
 /*@ assume-pure analyzer/ast.AnalyzedExpression.Type nonnil @*/
 
+// Call-depth accounting (C09): every evaluator method returns with the
+// call-depth counter it was entered with, so loops and repeated calls of
+// bounded depth never hit the limit; callFunc refuses a call beyond the limit.
+// (Run-time panics of these methods are the subject of C02, not of this
+// template: maypanic.)
+
+/*@ template for (self *Interpreter) *
+    except expression, infixHelper
+    serves C09
+    assume-safety
+    assumepre expression, infixHelper, IndexValue
+    dyncall-preserves self.callStackSize, self.callStackLimitSize
+    ensures @depth-balanced self.callStackSize == old(self.callStackSize) && self.callStackLimitSize == old(self.callStackLimitSize)
+    loopinvariant self.callStackSize == entry(self.callStackSize) && self.callStackLimitSize == entry(self.callStackLimitSize)
+@*/
+
+/*@ func (self *Interpreter) callFunc
+    ensures @limit old(self.callStackSize) > old(self.callStackLimitSize) ==> ret1 != nil && ret0 == nil
+@*/
+
+
 // The evaluator returns, for a well-typed expression, a value of the
 // expression's static type, and evaluating an expression never changes the
 // dynamic type held by an existing value cell (type soundness of the analyzer
@@ -82,6 +103,7 @@ func sameFloat(a float64, b float64) bool { return a == b || (a != a && b != b) 
     ensures ret1 == nil ==> ret0 != nil && *ret0 != nil && valueOfType(*ret0, node.Type())
     ensures ret1 != nil ==> *ret1 != nil
     ensures @cells-keep-their-kind forall p *value.Value in allocated :: sameKind(*p, old(*p))
+    ensures @depth-balanced self.callStackSize == old(self.callStackSize) && self.callStackLimitSize == old(self.callStackLimitSize)
 @*/
 
 /*@ func (self *Interpreter) infixHelper
@@ -89,6 +111,7 @@ func sameFloat(a float64, b float64) bool { return a == b || (a != a && b != b) 
     wrap int64
     requires lhs != nil && rhs != nil && infixAdmissible(operator, lhs.Type(), rhs.Type())
     ensures @result i == nil ==> res != nil && *res != nil
+    ensures @depth-balanced self.callStackSize == old(self.callStackSize) && self.callStackLimitSize == old(self.callStackLimitSize)
     assert @int-semantics before return value.NewValueInt(intRes), lhsVal, nil :: operator != pAst.PowerInfixOperator ==> !pAst.VIntOpRaises(operator, rhsInt.Inner) && intRes == pAst.VIntOp(operator, lhsInt.Inner, rhsInt.Inner)
     assert @float-semantics before return value.NewValueFloat(floatRes), lhsVal, nil :: operator != pAst.PowerInfixOperator ==> !pAst.VFloatOpRaises(operator, rhsFloat.Inner) && sameFloat(floatRes, pAst.VFloatOp(operator, lhsFloat.Inner, rhsFloat.Inner))
     assert @bool-semantics before return value.NewValueBool(boolRes), lhsVal, nil :: boolRes == pAst.VBoolOp(operator, lhsBool, rhsBool)
